@@ -200,7 +200,7 @@ def matches(x, q):
     """the property's own reading of a query (mirrors decisions the search takes anyway)"""
     if isinstance(q, list):
         return any([SX.decide(SX.s_eq(SX.raw(x.name), n)) for n in q])
-    if '{' in q or '[' in q or (len(q) > 0 and q[0] == '\\'):
+    if len(q) > 0 and q[0] == '\\':          # a full-expression query (by-name queries may contain any other text)
         if isinstance(x, TexNamedEnv):
             opening = '\\begin{%s}' % SX.raw(x.name) + SX.raw(str(x.args))
             if SX.decide(SX.Or(SX.s_eq(opening, q), SX.s_eq('\\begin{%s}' % SX.raw(x.name), q),
